@@ -43,6 +43,37 @@ Theorem C05_bw_query_parser_total : forall is_alnum is_num is_ws s,
 Proof. exact query_parse_total. Qed.
 Print Assumptions C05_bw_query_parser_total.
 
+(** Three more hand-written parsers of the backward-chaining front end (Model/BwSmall.v, Proofs/BwSmallProofs.v), for EVERY
+    input text: parse_aggregate_query / parse_function_call slice the text at the byte offsets str::find and str::rfind return
+    for the parentheses - always character boundaries, and the second slice is well ordered because the code refuses
+    `)` before `(`; NestedQueryParser::parse slices 7 bytes after the offset of " WHERE "; has_nested and
+    split_top_level_or index a Vec<char> only under their length guards and advance on every iteration;
+    DisjunctionParser::parse drops one byte at each end only after it has seen the one-byte parentheses there. *)
+From RRE Require Import Model.BwSmall Proofs.BwSmallProofs.
+Theorem C05_aggregate_parser_total : forall t, parse_aggregate t <> AggPanic.
+Proof. exact parse_aggregate_no_panic. Qed.
+Print Assumptions C05_aggregate_parser_total.
+
+Theorem C05_nested_parser_total : forall q, nested_parse q <> GPanic /\ has_nested q <> None.
+Proof. intros q. split; [apply nested_parse_no_panic|apply has_nested_total]. Qed.
+Print Assumptions C05_nested_parser_total.
+
+Theorem C05_disjunction_parser_total : forall p,
+  disj_parse p <> DPanic /\ split_top_level_or p <> None /\ contains_or p <> None.
+Proof. intros p. split; [apply disj_parse_no_panic|split; [apply split_top_level_or_total|apply contains_or_total]]. Qed.
+Print Assumptions C05_disjunction_parser_total.
+
+(** non-vacuity: the documented forms parse to what the documentation says; a multi-byte character next to every slice point *)
+Example C05_small_parsers_example :
+  (* "sum(?é) WHERE p(?é) AND ?é > 1" *)
+  parse_aggregate [115;117;109;40;63;233;41;32;87;72;69;82;69;32;112;40;63;233;41;32;65;78;68;32;63;233;32;62;32;49]
+    = AggOk 1 [233] [112;40;63;233;41] (Some [63;233;32;62;32;49])
+  (* "(é OR (b OR c))" : the nested OR is not a top-level separator *)
+  /\ disj_parse [40;233;32;79;82;32;40;98;32;79;82;32;99;41;41] = DBranches [[233]; [40;98;32;79;82;32;99;41]]
+  (* "é WHERE a AND (b WHERE c) AND d" *)
+  /\ nested_parse [233;32;87;72;69;82;69;32;97;32;65;78;68;32;40;98;32;87;72;69;82;69;32;99;41;32;65;78;68;32;100] = GGoals [[97]; [100]].
+Proof. vm_compute. repeat split; reflexivity. Qed.
+
 (** non-vacuity: the pre-repair witnesses are now plain errors naming the right leaf *)
 Example C05_example :
   shape_ident [233; 43; 97] = RErrField [233]            (* "é+a"  *)
